@@ -13,13 +13,14 @@ RECT_FAMILIES = ['ortho-1d', 'ortho-2d', 'ortho-3d', 'skew-2d', 'skew-3d',
                  'cli-single', 'cli-degenerate', 'fill-translation',
                  'fill-rotation', 'lat-trcl', 'container-rot',
                  'container-small', 'container-trcl', 'rotated-cell',
-                 'nested', 'rpp-cell', 'box-cell', 'paren-pairs']
+                 'nested', 'rpp-cell', 'box-cell', 'paren-pairs',
+                 'planes-with-tr']
 HEX_FAMILIES = ['regular-6', 'regular-8', 'irregular-6', 'irregular-8',
                 'rotated-6', 'rotated-8', 'handed-minus', 'handed-plus',
                 'swap-last', 'cli-single', 'array-own-zero', 'fill-rotation',
                 'container-rot', 'flip-axial', 'nonadjacent-6',
                 'nonadjacent-8', 'nested', 'side-planes-with-tr', 'paren-pairs',
-                'two-lattices', 'two-pitches']
+                'two-lattices', 'two-pitches', 'oblique-8']
 
 LAT_U = 50          # universe of the lattice cell
 LAT_CELL = 500
@@ -366,6 +367,24 @@ def build_rect(rng, family):
         else:
             leaves += [leaf_p, leaf_m]
             truth.append(vecs[k])
+    if family == 'planes-with-tr':
+        # some of the planes carry a TR card of their own whose displacement
+        # is parallel to the plane (and whose rotation, if any, is about the
+        # plane's normal): the plane is unchanged as a set of points, but it
+        # is no longer described from the same reference point as its partner
+        chosen = rng.sample([lf[1] for lf in leaves],
+                            rng.randint(1, len(leaves) - 1))
+        for sid in chosen:
+            sur = next(s_ for s_ in deck.surfs if s_.id == sid)
+            k = [lf[1] for lf in leaves].index(sid) // 2
+            nrm = rec[k] / np.linalg.norm(rec[k])
+            shift = np.array([rnd(rng, -3, 3) for _ in range(3)])
+            shift = shift - (shift @ nrm) * nrm
+            tid = bld.next_tr
+            bld.next_tr += 1
+            deck.trs.append(tr_card(rng, tid, Motion([float(v) for v in shift]),
+                                    rng.choice(['3', '12'])))
+            sur.tr = tid
     ranges = _ranges(rng, ndim)
     ranges3 = ranges + [(0, 0)] * (3 - ndim)
     nuni = rng.randint(2, 4)
@@ -543,11 +562,24 @@ def build_hex(rng, family):
     truth = [trans[first], trans[third]]
     ndim = 2
     hgt = rnd(rng, 1.5, 2.5)
+    end_normal = None
     if axial:
         ndim = 3
         top_first = family != 'flip-axial' and rng.random() < 0.6
-        sid_t, wr_t = bld.plane(wax, origin + 0.5 * hgt * wax)
-        sid_b, wr_b = bld.plane(wax, origin - 0.5 * hgt * wax)
+        end = wax
+        if family == 'oblique-8':
+            # oblique prism: the two end planes are parallel to each other
+            # but tilted with respect to the axis of the prism
+            end = wax + rnd(rng, 0.2, 0.5) * rng.choice([-1, 1]) * e1 + \
+                rnd(rng, -0.3, 0.3) * e2
+            end = end / np.linalg.norm(end)
+            end_normal = end
+        sid_t, wr_t = bld.plane(end, origin + 0.5 * hgt * wax)
+        sid_b, wr_b = bld.plane(end, origin - 0.5 * hgt * wax)
+        if end_normal is not None:
+            # neighbouring elements share whole faces: a1 and a2 are
+            # parallel to the end planes
+            truth = [v - wax * ((v @ end) / (wax @ end)) for v in truth]
         leaf_t = M.S(-sid_t if wr_t > 0 else sid_t)
         leaf_b = M.S(sid_b if wr_b > 0 else -sid_b)
         if top_first:
@@ -570,7 +602,7 @@ def build_hex(rng, family):
     mat_l, rho_l = bld.material()
     lat = M.Cell(LAT_CELL, mat=mat_l, rho=rho_l, geom=_lattice_geom(family, leaves, rng),
                  imp={'n': '1'}, u=LAT_U, lat=2, fill=fil)
-    lat.lat_info = M.LatticeTruth(2, origin, truth, hexagon=hexv)
+    lat.lat_info = M.LatticeTruth(2, origin, truth, hexagon=hexv, axis=wax)
     deck.cells.append(lat)
     span = (max(abs(v) for lo_hi in ranges for v in lo_hi) + 1) * 3.0
     geom = _container(bld, family, span)
